@@ -270,6 +270,23 @@ fn delivery_scenarios(lvl: u8, tag: &str) -> Vec<Scenario> {
             out.push(scn(format!("{tag}-{n}-handler-panics-cap{cap}-{kind:?}"), vec![a], vec![c0, c1], &[]));
         }
     }
+    // an ask through a type-erased handle with a stop() right behind it: the actor answers and ends before the asker
+    // is polled again, which then finds its reply and a closed mailbox at the same time (several tokio rng seeds)
+    for seed in 0..6u64 {
+        for cap in [1usize, 2] {
+            let mut ids = Ids(0);
+            let a = ActorSpec::plain(cap);
+            let c0 = Program::new(
+                vec![(0, 0)],
+                vec![Step::Erase { from: 0, to: 1, kind: EraseKind::Ask, owned: false }, Step::Fuse, send(SendKind::Ask, 1, MsgSpec::quick(ids.next()))],
+            );
+            let c1 = Program::new(vec![(0, 0)], vec![Step::Stop(0)]);
+            n += 1;
+            let mut sc = scn(format!("{tag}-{n}-erased-ask-then-stop-cap{cap}-seed{seed}"), vec![a], vec![c0, c1], &[]);
+            sc.seed = seed;
+            out.push(sc);
+        }
+    }
     // the last external reference travels inside a queued message
     {
         let mut ids = Ids(0);
@@ -1072,6 +1089,31 @@ fn gen_c08(lvl: u8) -> Vec<Scenario> {
             out.push(scn(format!("c08-{n}-self-feeding-onrun-act{act}-free{free_run}"), vec![a], vec![c0], if act == 2 { &["selfkill_in_on_run"] } else { &[] }));
         }
     }
+    // a backlog larger than tokio's cooperative budget (128 operations per poll of a task), handled by handlers that
+    // never suspend: the idle handler still waits until the mailbox is empty
+    for nmsg in if thorough { vec![130usize, 200, 300] } else { vec![200usize] } {
+        for script in 0..2 {
+            let mut ids = Ids(0);
+            let mut a = ActorSpec::plain(nmsg);
+            a.free_handlers = true;
+            a.on_start = gated(Outcome::Ok);
+            a.on_run = if script == 0 {
+                vec![
+                    HookSpec { entry_yield: false, steps: vec![Step::Mark(1), Step::Yield, Step::Mark(2)], out: Outcome::OkTrue, free: true },
+                    HookSpec { entry_yield: false, steps: vec![Step::Mark(3)], out: Outcome::OkFalse, free: true },
+                ]
+            } else {
+                vec![HookSpec { entry_yield: false, steps: vec![Step::Mark(1)], out: Outcome::OkFalse, free: false }]
+            };
+            let mut steps: Vec<Step> = Vec::new();
+            for _ in 0..nmsg {
+                steps.push(send(SendKind::Tell, 0, MsgSpec::quick(ids.next())));
+            }
+            let c0 = Program { slots: vec![(0, 0)], steps, auto_yield: false, free: false };
+            n += 1;
+            out.push(scn(format!("c08-{n}-backlog{nmsg}-beyond-the-coop-budget-script{script}"), vec![a], vec![c0], &[]));
+        }
+    }
     // a client that is woken by on_run just before on_run returns, and sends at once
     for first in [Outcome::OkFalse, Outcome::Err(6), Outcome::OkTrue] {
         for free_run in [false, true] {
@@ -1356,6 +1398,41 @@ fn gen_c10(lvl: u8) -> Vec<Scenario> {
                 let mut sc = scn(format!("c10-{n}-stalled-executor-{timed:?}-erased{erased}-seed{seed}"), vec![ActorSpec::plain(1)], clients, &["stall"]);
                 sc.seed = seed;
                 out.push(sc);
+            }
+        }
+    }
+    // timeouts that are not whole milliseconds (999 us, 1999 us, 2500 us) against a handler that never answers and
+    // against a mailbox that stays full; another client makes the clock stop at every millisecond on the way
+    for us in [999u32, 1999, 2500] {
+        for timed in [SendKind::AskTO(crate::model::TO_MICROS_BASE + us), SendKind::TellTO(crate::model::TO_MICROS_BASE + us)] {
+            for erased in [false, true] {
+                let mut ids = Ids(0);
+                let mut clients = Vec::new();
+                let mut steps = vec![];
+                let mut m = MsgSpec::m1(ids.next());
+                m.entry_yield = false;
+                if timed.is_ask() {
+                    m.steps = vec![Step::Park];
+                } else {
+                    let mut mb = MsgSpec::m1(ids.next()).steps(vec![Step::Park]);
+                    mb.entry_yield = false;
+                    let mut filler = MsgSpec::quick(ids.next());
+                    filler.entry_yield = false;
+                    clients.push(Program { slots: vec![(0, 0)], steps: vec![send(SendKind::Tell, 0, mb), send(SendKind::Tell, 0, filler)], auto_yield: false, free: false });
+                    steps.push(Step::Yield);
+                }
+                let slot = if erased {
+                    steps.push(Step::Erase { from: 0, to: 1, kind: if timed.is_ask() { EraseKind::Ask } else { EraseKind::Tell }, owned: false });
+                    steps.push(Step::Fuse);
+                    1
+                } else {
+                    0
+                };
+                steps.push(send(timed, slot, m));
+                clients.push(Program::new(vec![(0, 0)], steps));
+                clients.push(Program::new(vec![], vec![Step::Sleep(1), Step::Sleep(1), Step::Sleep(1)]));
+                n += 1;
+                out.push(scn(format!("c10-{n}-submilli-{us}us-{}-erased{erased}", if timed.is_ask() { "ask" } else { "tell" }), vec![ActorSpec::plain(1)], clients, &["parked"]));
             }
         }
     }
